@@ -211,6 +211,10 @@ func init() {
 		fr.i.nextGo = len(fr.i.spawned)
 		return nil
 	}
+	// vHash(kind, data, n): n bytes of an uninterpreted hash of data (functionally consistent per path)
+	intrinsics["vHash"] = func(fr *frame, args []value) value {
+		return uninterpretedHash(nameArg(args[0]), cellsOf(args[1]), int(asInt64(args[2])))
+	}
 	intrinsics["vPrint"] = func(fr *frame, args []value) value {
 		fmt.Fprintln(os.Stderr, "vPrint:", toString(args[0]))
 		return nil
